@@ -303,16 +303,21 @@ def _line_col_ref(text, p):
 
 
 def _same_chars(a, b) -> bool:
+    """Equality of two str / SymStr values; symbolic positions are decided by the solver."""
     ca, cb = symx.chars_of(a), symx.chars_of(b)
     if len(ca) != len(cb):
         return False
+    conds = []
     for x, y in zip(ca, cb):
-        if isinstance(x, int) or isinstance(y, int):
-            if not (isinstance(x, int) and isinstance(y, int) and x == y):
+        xi, yi = isinstance(x, int), isinstance(y, int)
+        if xi and yi:
+            if x != y:
                 return False
-        elif not x.eq(y):
-            return False
-    return True
+        elif xi or yi or not x.eq(y):
+            conds.append(symx._ceq(x, y))
+    if not conds:
+        return True
+    return symx.engine().branch(symx._conj(conds))
 
 
 def oracle_c13(c: Case):
